@@ -692,7 +692,8 @@ def analyse(case, obs):
     """walks the merged record; returns (messages, stats Counter)"""
     msgs = []
     st = Counter()
-    trace, klog, xlog = obs["trace"], obs["klog"], obs.get("xlog", [])
+    trace, klog = obs["trace"], obs["klog"]
+    xlog = [dict(x) for x in obs.get("xlog", [])]     # the walk annotates its records: work on copies (analyse is re-run on one obs)
     results = obs["results"]
     if obs.get("aborted"):
         return msgs, st
